@@ -383,6 +383,11 @@ def run(ctx: Ctx, rep: Report, tier: str) -> None:
     from .c16 import settings_propagation
 
     settings_propagation(ctx, rep, rid="R04.7")
+    # R04.8 removal is by rendered line: two entries render the same line only if they are the same rule - the name of a
+    # referenced group is read whole (C01 R01.17)
+    from .c01 import group_reference_whole
+
+    group_reference_whole(ctx, rep, rid="R04.8")
     # R04.5 premise: the removal uses the report computed under the caller's skip options
     from .c11 import skip_forwarding
 
